@@ -15,7 +15,7 @@ from .symx import SymBool, SymInt, floormod
 
 ARITH = {"neg": "__neg__", "add": "__add__", "sub": "__sub__", "mul": "__mul__"}
 CMP = {"eq": "__eq__", "ne": "__ne__", "lt": "__lt__", "le": "__le__", "gt": "__gt__", "ge": "__ge__"}
-PRED_HEADS = set(CMP) | {"and", "or", "not", "plit", "pref", "inrange", "inseq"}
+PRED_HEADS = set(CMP) | {"and", "or", "not", "plit", "pref", "inrange", "inseq", "rgt"}
 
 
 def is_pred(e):
@@ -54,8 +54,10 @@ def z3_of_ast(e, row, bind):
         return row[e[1]]
     if h == "lit":
         return zval(e[1], bind)
-    if h == "neg":
+    if h in ("neg", "rneg"):
         return -z3_of_ast(e[1], row, bind)
+    if h == "rgt":
+        return z3_of_ast(e[1], row, bind) > z3_of_ast(e[2], row, bind)
     if h in ("add", "sub", "mul"):
         x, y = z3_of_ast(e[1], row, bind), z3_of_ast(e[2], row, bind)
         return x + y if h == "add" else x - y if h == "sub" else x * y
@@ -91,8 +93,10 @@ def py_of_ast(e, row, bind):
         return row[e[1]]
     if h == "lit":
         return bind[e[1]] if isinstance(e[1], str) else e[1]
-    if h == "neg":
+    if h in ("neg", "rneg"):
         return -py_of_ast(e[1], row, bind)
+    if h == "rgt":
+        return py_of_ast(e[1], row, bind) > py_of_ast(e[2], row, bind)
     if h in ("add", "sub", "mul"):
         x, y = py_of_ast(e[1], row, bind), py_of_ast(e[2], row, bind)
         return x + y if h == "add" else x - y if h == "sub" else x * y
@@ -129,6 +133,10 @@ def ast_columns(e):
         return set()
     if h == "inrange":
         return ast_columns(e[1])
+    if h == "rneg":
+        return ast_columns(e[1])
+    if h == "rgt":
+        return ast_columns(e[1]) | ast_columns(e[2])
     if h == "inseq":
         out = ast_columns(e[1])
         for i in e[2]:
@@ -148,6 +156,10 @@ def ast_str(e):
         return str(e[1])
     if h == "neg":
         return f"-({ast_str(e[1])})"
+    if h == "rneg":
+        return f"-{e[2]}({ast_str(e[1])})"
+    if h == "rgt":
+        return f"({ast_str(e[1])}>{e[3]} {ast_str(e[2])})"
     sym = {"add": "+", "sub": "-", "mul": "*", "eq": "=", "ne": "!=", "lt": "<", "le": "<=", "gt": ">", "ge": ">="}
     if h in sym:
         return f"({ast_str(e[1])}{sym[h]}{ast_str(e[2])})"
@@ -176,6 +188,13 @@ def lib_of_ast(e, tags, val):
         return ColumnExpression.literal(val(e[1]))
     if h == "neg":
         return lib_of_ast(e[1], tags, val).method("__neg__")
+    if h in ("rneg", "rgt"):
+        from lsst.daf.relation import iteration, sql
+
+        kinds = {"it": (iteration.Engine,), "sq": (sql.Engine,)}[e[-1]]
+        if h == "rneg":
+            return lib_of_ast(e[1], tags, val).method("__neg__", supporting_engine_types=kinds)
+        return lib_of_ast(e[1], tags, val).predicate_method("__gt__", lib_of_ast(e[2], tags, val), supporting_engine_types=set(kinds))
     if h in ("add", "sub", "mul"):
         return lib_of_ast(e[1], tags, val).method(ARITH[h], lib_of_ast(e[2], tags, val))
     if h in CMP:
